@@ -221,6 +221,23 @@ func (h *bitHarness) lazyDecodeScenario(layout []layoutField, requested []int, u
 			exp = append(exp, fmt.Sprintf("%d:%v", t, len(want[t])+len(bytesWant[t]) > 0))
 		}
 		c.Check("Range visits the requested tags in ascending order with nil for the absent ones", strings.Join(seen, " ") == strings.Join(exp, " "), fmt.Sprintf("visited %v, expected %v", seen, exp))
+		// Range stops exactly when the callback returns false - at a present tag and at an absent one
+		stops := map[int]bool{0: true}
+		for i, t := range requested {
+			if len(want[t])+len(bytesWant[t]) == 0 {
+				stops[i] = true
+			}
+		}
+		for stopAt := range stops {
+			n := 0
+			stopAt := stopAt
+			cb := bitexec.NativeFunc(func(args []bitexec.Value) []bitexec.Value {
+				n++
+				return []bitexec.Value{bitexec.Bool{B: bitdom.Const(n-1 != stopAt)}}
+			})
+			h.call("(*DecodeResult).Range", rp, cb)
+			c.Check("Range stops when the callback returns false", n == stopAt+1, fmt.Sprintf("callback returned false at call %d of %d requested tags, Range made %d calls", stopAt+1, len(requested), n))
+		}
 	}
 }
 
@@ -235,7 +252,7 @@ func checkLazyDecodeBits(r *core.Result, prog *core.Program, root, lp *packages.
 		{"singles, repeats, an unknown field in between, an absent requested tag", []layoutField{
 			{tag: 1, kind: "UInt64", values: []uint64{S}}, {tag: 7, kind: "Fixed32", values: []uint64{S}}, {tag: 1, kind: "UInt64", values: []uint64{1 << 40}},
 			{tag: 3, kind: "Fixed32", values: []uint64{S}}, {tag: 2, kind: "SInt32", values: []uint64{0xffffffff}}, {tag: 5, kind: "Bool", values: []uint64{S}},
-		}, []int{1, 2, 3, 5, 9}},
+		}, []int{1, 2, 3, 4, 5, 9}},
 		{"a repeated int32 sent as two packed runs, another sent unpacked three times", []layoutField{
 			{tag: 4, kind: "Int32", values: []uint64{0xffffffff}, packed: true}, {tag: 9, kind: "Int32", values: []uint64{0xffffffff}}, {tag: 4, kind: "Int32", values: []uint64{S, 128}, packed: true},
 			{tag: 9, kind: "Int32", values: []uint64{0x80000000}}, {tag: 9, kind: "Int32", values: []uint64{5}},
